@@ -51,14 +51,16 @@ def unit_timeout(tier):
     return 120 if tier == "quick" else 900
 
 
-def floors(tier):
+def floors(tier):  # noqa: D103
     n = N[tier]
     return {"evals": n * 60, "distinct": n * 15,
             "counters": {"valid_definitions_accepted_by_all": n // 2, "fault_cases": n * 20,
                          "entry_point_observations": n * 60,
                          "faults_class_overlap": n, "faults_class_update": n, "faults_class_calibration": n,
                          "faults_class_process_noise": n, "faults_class_sensor_model": n,
-                         "faults_class_sensor_noise": n}}
+                         "faults_class_sensor_noise": n,
+                         "definitions_without_calibration": max(1, n // 8),
+                         "definitions_without_control": max(1, n // 8)}}
 
 
 # ------------------------------------------------------------- definitions
@@ -286,8 +288,13 @@ def run_unit(unit, ctx):
                        depth=1, n_shared=(0, 1), calib_containers=("set", "frozenset", "list", "tuple"))
     if unit["i"] % 4 == 3:
         # also without control / calibration
-        defn = gen.program(rng, n_state=(1, 3), n_control=(0, 1), n_calib=(0, 1), n_sensor=(1, 2),
+        defn = gen.program(rng, n_state=(1, 3), n_control=(0, 1) if unit["i"] % 8 == 3 else (0, 0),
+                           n_calib=(0, 0) if unit["i"] % 8 == 3 else (0, 1), n_sensor=(1, 2),
                            n_reading=(1, 2), depth=1, n_shared=(0, 1))
+        if not defn["calibration"]:
+            R.stats.inc("definitions_without_calibration")
+        if not defn["control"]:
+            R.stats.inc("definitions_without_control")
     b = build.Built(defn, attach=False)
     base = Args(b)
     run = Runner()
